@@ -80,6 +80,9 @@ def check_paths(rep, tag, H, outs, maxdepth, mindepth, faults, start=0):
     nob = 0
     for o in outs:
         desc = {'maxdepth': maxdepth, 'mindepth': mindepth, 'dirs': ['F' if d else 'B' for d in o['dirs']], 'leapfrogs': o['leapfrogs'][:20]}
+        badargs = [e for e in o.get('events', []) if e[0] == 'bad_leapfrog_args']
+        if badargs:
+            rep.violated(tag + ' leapfrog arguments', 'tree.leapfrog_args', 'the tree calls leapfrog with %s = %s (must be the Hamiltonian\'s own step size, factor 1, and the max_energy_error of its options) on path %s' % (badargs[0][1], badargs[0][2], desc), model=desc); nv += 1; continue
         if o['kind'] == 'panic':
             rep.violated(tag + ' no panic', 'tree.panic', 'nuts::draw reaches a panic: %r on path %s pc=%s' % (o['panic'], desc, [str(c) for c in o['pc'][-4:]]), model=desc); nv += 1; continue
         ev = o['events']
